@@ -34,6 +34,16 @@ def ts(n: int) -> str:
     return (T0 + td(minutes=n)).strftime("%y-%m-%dT%H:%M:%S")
 
 
+def is_fault(n: int) -> bool:
+    """Entry n of the controller's log: fault dev0, fault dev1, restore dev0, restore dev1, ... (two devices of ONE zone, class and
+    fault type, their faults and restores interleaved)."""
+    return n % 4 in (1, 2)
+
+
+def dev_of(n: int) -> str:
+    return DEVS[(n - 1) % 2]
+
+
 class World:
     """Reference = the controller's log (list of entry numbers, newest first). Implementation = real FaultLog."""
 
@@ -64,8 +74,8 @@ class World:
     # --- messages a controller would send
     def _payload(self, n: int, idx: int) -> str:
         lib = self.lib
-        st = lib["FaultState"].FAULT if n % 2 == 1 else lib["FaultState"].RESTORE
-        dev = DEVS[((n - 1) // 2) % 2]
+        st = lib["FaultState"].FAULT if is_fault(n) else lib["FaultState"].RESTORE
+        dev = dev_of(n)
         cmd = lib["Command"]._put_system_log_entry(
             CTL, st, lib["FaultType"].BATTERY_LOW, lib["FaultDeviceClass"].ACTUATOR, device_id=dev, domain_idx="03", _log_idx=0, timestamp=T0 + td(minutes=n)
         )
@@ -169,6 +179,34 @@ def invariants(w: World) -> list[tuple[str, str]]:
     le = fl.latest_event
     if v and le is not None and le.timestamp != max(tss):
         out.append(("C19:latest-event-not-newest", f"latest_event {le.timestamp} but view has {max(tss)}"))
+    # the entries shown are the controller's entries (not only their timestamps), and the derived views follow from them
+    by_ts = {ts(n): n for n in range(1, w.n + 1)}
+    known = {}
+    for e in fl._log.values():
+        n = by_ts.get(e.timestamp)
+        if n is None:
+            continue  # (already reported above, if it is in the view)
+        known[n] = e
+        if (e.fault_state == w.lib["FaultState"].FAULT) != is_fault(n) or e.device_id != dev_of(n) or e.domain_idx != "03":
+            out.append(("C19:entry-content-differs", f"entry {e.timestamp} is {e.fault_state}/{e.device_id}/{e.domain_idx}; the controller logged {'fault' if is_fault(n) else 'restore'}/{dev_of(n)}/03"))
+            return out
+    if known:
+        faults = [n for n in known if is_fault(n)]
+        lf = fl.latest_fault
+        if (lf.timestamp if lf else None) != (ts(max(faults)) if faults else None):
+            out.append(("C19:latest-fault-wrong", f"latest_fault {lf.timestamp if lf else None}; the newest known fault is {ts(max(faults)) if faults else None}"))
+        # outstanding faults, per device: decided only where the known entries of that device alternate fault/restore (then 'the
+        # last one is a fault' is the only reading of 'no corresponding restore')
+        af = fl.active_faults or ()
+        got = collections.Counter(e.device_id for e in af)
+        for d in DEVS:
+            seq = [is_fault(n) for n in sorted(known) if dev_of(n) == d]
+            if any(a == b for a, b in zip(seq, seq[1:])):
+                continue
+            want = 1 if seq and seq[-1] else 0
+            if got.get(d, 0) != want:
+                out.append(("C19:active-faults-wrong", f"known entries of {d} (oldest first, fault=True): {seq}; active_faults lists it {got.get(d, 0)} time(s): {[(e.timestamp, e.device_id) for e in af]}"))
+                break
     return out
 
 
@@ -210,7 +248,7 @@ def step_oracles(hist, ev, before_view, before_log, w: World, result) -> list[tu
         n = w.n
         if v.get(0) != ts(n):
             out.append(("C19:announcement-not-on-top", f"announced {ts(n)}; view {sorted(v.items())}"))
-        want = {i + 1: t for i, t in before_view.items() if i + 1 <= 0x3E}
+        want = {i + 1: t for i, t in before_view.items() if i + 1 <= 0x3F}  # (positions 0..63: what a read-through reads)
         got = {i: v.get(i) for i in want}
         if got != want:
             hole = 0 not in before_view
@@ -241,10 +279,11 @@ def long_history(ctx):
     steps = 0
     for k in range(70):
         before = w.view()
-        w.apply(("new", k % 3 != 2))
+        ev = ("new", k % 3 != 2)
+        w.apply(ev)
         steps += 1
-        for key, what in invariants(w):
-            viol.setdefault(key + ":long", {"what": f"long history step {k}: {what}", "replay": {"long": True}})
+        for key, what in step_oracles((), ev, before, None, w, None):
+            viol.setdefault(key + ":long", {"what": f"long history step {k}: {what}"[:600], "replay": {"long": True}})
         if k % 10 == 9:
             res = w.apply(("read", 64))
             steps += 1
@@ -280,7 +319,7 @@ def run(ctx) -> None:
         "(controller log, FaultLog._map, FaultLog._log keys); every transition executes the real FaultLog (handle_msg / get_faultlog on the virtual loop); "
         "+ one 70-entry history for the 64-entry limit",
     )
-    ctx.assumptions += ["entry timestamps are unique and increasing (as the library documents)", "every received RP reaches handle_msg before get_faultlog sees it (dispatcher order)"]
+    ctx.assumptions += ["entry timestamps are unique and increasing (as the library documents)", "entries: two devices of one zone / class / fault type, fault-fault-restore-restore interleaved; active_faults is decided per device only where its known entries alternate", "every received RP reaches handle_msg before get_faultlog sees it (dispatcher order)"]
 
 
 def replay(rep: dict):
